@@ -324,12 +324,12 @@ func worker(id, tier string, idx, W int, seed int64, out string) {
 func sampleOf(cs *Case) map[string]interface{} {
 	m := map[string]interface{}{"kind": cs.Kind, "sig": cs.Sig, "runs": len(cs.Runs)}
 	if cs.Program != "" {
-		m["program"] = cs.Program
+		m["program"] = clipN(cs.Program, 1500)
 	}
 	if len(cs.Runs) > 0 {
 		c := cs.Runs[len(cs.Runs)-1].Cfg
 		m["last_run"] = map[string]interface{}{
-			"role": cs.Runs[len(cs.Runs)-1].Role, "args": c.Args, "stdin": string(c.Stdin), "chunks": c.Chunks,
+			"role": cs.Runs[len(cs.Runs)-1].Role, "args": c.Args, "stdin": clipN(string(c.Stdin), 600), "chunks": c.Chunks,
 			"chunk_default": c.ChunkDefault, "stdin_err_at": c.StdinErrAt, "orders": c.Orders,
 			"clock_start_ms": c.ClockStartMs, "clock_steps_ms": c.ClockStepsMs, "gc_ticks": c.GCTicks,
 		}
@@ -694,3 +694,10 @@ func writeEvidence(prop *Property, tier string, seed int64, st *Stats, self *Sel
 }
 
 var _ = io.EOF
+
+func clipN(s string, n int) string {
+	if len(s) <= n {
+		return s
+	}
+	return strings.ToValidUTF8(s[:n/2], "") + fmt.Sprintf(" ...[%d bytes omitted]... ", len(s)-n) + strings.ToValidUTF8(s[len(s)-n/2:], "")
+}
